@@ -394,6 +394,15 @@ func (a *Analyzer) firstMention(info *types.Info, st ast.Stmt, obj types.Object)
 		if thenR == "sorted" && elseR == "sorted" {
 			return "sorted"
 		}
+		// `if c { sort(x); …; return … }` without else: that path is settled, the other path goes on below
+		if thenR == "sorted" && s.Else == nil && len(s.Body.List) > 0 {
+			if _, isRet := s.Body.List[len(s.Body.List)-1].(*ast.ReturnStmt); isRet {
+				return "none"
+			}
+		}
+		if thenR == "none" && elseR == "none" {
+			return "none"
+		}
 		return "bad"
 	case *ast.BlockStmt:
 		return a.firstInList(info, s.List, obj)
